@@ -13,6 +13,7 @@ import JumanjiModel.Env.JobShop.Bounds
 import JumanjiModel.Env.JobShop.CompletionLemmas
 import JumanjiModel.Env.JobShop.SpecLemmas
 import JumanjiModel.Env.JobShop.GenLemmas
+import JumanjiModel.Env.JobShop.SpecValid
 open Jm JobShop
 
 /-- a concrete mid-episode state (2 jobs, 2 machines, 2 ops; job 0's first op runs on machine 0
@@ -53,6 +54,89 @@ theorem jobshop_inspec_actin (cfg : Cfg) (a : List Int) (h : InSpec cfg a) : Act
 example : validDraw exCfg exState.mid exState.dur := by decide
 example : BInv exCfg exState := by decide
 example : ActIn exCfg [1, 2] := by decide
+
+/-! #### (wave 3) membership in the DECLARED specs: structure, shapes, dtypes and bounds -/
+open Sp PzS PkS
+
+/-- the model's `obsSpec` / `actionSpec` / reward and discount specs ARE the specs generated from the real spec objects
+(Gen/Specs.lean) for the catalogue configuration `JobShop(RandomGenerator(3, 3, 3, 3))` -/
+theorem jobshop_obsSpec_generated :
+    prefixed "observation_spec." (obsSpec ⟨3, 3, 3, 3⟩) = declared "jobshop-3x3" "observation_spec." ∧
+    [("action_spec", actionSpec ⟨3, 3, 3, 3⟩)] = declared "jobshop-3x3" "action_spec" ∧
+    [("reward_spec", rewardSpec)] = declared "jobshop-3x3" "reward_spec" ∧
+    [("discount_spec", discountSpec)] = declared "jobshop-3x3" "discount_spec" := by
+  refine ⟨by decide, by decide, by decide, by decide⟩
+
+/-- the `reset` observation of EVERY valid instance (`validDraw`: shape `J × O`, machine ids in `[-1, M-1]`, durations in
+`[-1, D]`; every output of `RandomGenerator` is one: `jobshop_generate_validDraw`) of every configuration with at least one
+job and one machine is accepted by `observation_spec.validate`: six fields, shapes `(J, O)` ×3, `(M,)` ×2, `(M, J+1)`, dtypes
+int32 / bool, bounds as declared (`machines_remaining_times` ≤ D) -/
+theorem jobshop_reset_obs_valid (cfg : Cfg) (hJ : 0 < cfg.J) (hM : 0 < cfg.M) (mid dur : List (List Int))
+    (h : validDraw cfg mid dur) : (obsSpec cfg).valid (toNValue (reset cfg mid dur).2.obs) = true :=
+  JobShop.reset_obs_valid cfg hJ hM mid dur h
+
+/-- the same for the observation of EVERY `step` with an action whose entries are job ids or the no-op (every action of the
+action spec) — legal or not, MID or LAST — from every state satisfying the spec invariant `SInv` (= `BInv` + shapes of the
+two instance arrays) -/
+theorem jobshop_step_obs_valid (cfg : Cfg) (hJ : 0 < cfg.J) (hM : 0 < cfg.M) (s : State) (a : List Int)
+    (h : SInv cfg s) (ha : ActIn cfg a) : (obsSpec cfg).valid (toNValue (step cfg s a).2.obs) = true :=
+  JobShop.step_obs_valid cfg hJ hM s a h ha
+
+/-- `SInv` is established by `reset` and preserved by every such step -/
+theorem jobshop_sinv_invariant (cfg : Cfg) :
+    (∀ mid dur, validDraw cfg mid dur → SInv cfg (reset cfg mid dur).1) ∧
+    (∀ (s : State) (a : List Int), SInv cfg s → ActIn cfg a → SInv cfg (step cfg s a).1) :=
+  ⟨JobShop.reset_sinv cfg, fun s a h ha => JobShop.step_sinv cfg s a h ha⟩
+
+/-- WHOLE EPISODES: every observation of the rollout (`Ep.rollout` = the L1 step iterated, through the first LAST and
+beyond) of ANY in-spec actions from the `reset` state of any valid instance is a member of the spec -/
+theorem jobshop_rollout_obs_valid (cfg : Cfg) (hJ : 0 < cfg.J) (hM : 0 < cfg.M) (mid dur : List (List Int))
+    (h : validDraw cfg mid dur) (as : List (List Int)) (has : ∀ a ∈ as, ActIn cfg a) (j : Nat)
+    (e : State × TimeStep Obs) (he : (Ep.rollout (step cfg) (reset cfg mid dur).1 as)[j]? = some e) :
+    (obsSpec cfg).valid (toNValue e.2.obs) = true := JobShop.rollout_obs_valid cfg hJ hM mid dur h as has j e he
+
+/-- the transliterated `RandomGenerator` produces valid instances for every valid draw, and its reset state is `reset` of them -/
+theorem jobshop_generate_validDraw (cfg : Cfg) (midDraw durDraw : List (List Int)) (numOps : List Int)
+    (h : validGenDraw cfg midDraw durDraw numOps) :
+    validDraw cfg (genPad cfg midDraw numOps) (genPad cfg durDraw numOps) ∧
+    generate cfg midDraw durDraw numOps = (reset cfg (genPad cfg midDraw numOps) (genPad cfg durDraw numOps)).1 :=
+  ⟨JobShop.generate_validDraw cfg midDraw durDraw numOps h, rfl⟩
+
+/-- what membership means (so the theorems above are not hollow) -/
+theorem jobshop_obs_valid_only (cfg : Cfg) (o : Obs) (h : (obsSpec cfg).valid (toNValue o) = true) :
+    shape2 o.mid = [cfg.J, cfg.O] ∧ (∀ v ∈ o.mid.flatten, -1 ≤ v ∧ v ≤ (cfg.M : Int) - 1) ∧
+    shape2 o.dur = [cfg.J, cfg.O] ∧ (∀ v ∈ o.dur.flatten, -1 ≤ v ∧ v ≤ (cfg.D : Int)) ∧
+    shape2 o.opsMask = [cfg.J, cfg.O] ∧
+    o.mjob.length = cfg.M ∧ (∀ v ∈ o.mjob, 0 ≤ v ∧ v ≤ (cfg.J : Int)) ∧
+    o.mrem.length = cfg.M ∧ (∀ v ∈ o.mrem, 0 ≤ v ∧ v ≤ (cfg.D : Int)) ∧
+    shape2 o.amask = [cfg.M, cfg.J + 1] := JobShop.obs_valid_only cfg o h
+
+example : SInv exCfg exState ∧ (obsSpec exCfg).valid (toNValue (step exCfg exState [2, 2]).2.obs) = true ∧
+    (obsSpec exCfg).valid (toNValue { (step exCfg exState [2, 2]).2.obs with mjob := [3, 2] }) = false ∧
+    (obsSpec ⟨2, 3, 2, 2⟩).valid (toNValue (step exCfg exState [2, 2]).2.obs) = false := by
+  refine ⟨⟨by decide, ⟨rfl, by decide⟩, ⟨rfl, by decide⟩⟩, by decide +kernel, by decide +kernel, by decide +kernel⟩
+
+/-- reward and discount of every `step` (ALL states, ALL action values) and of `reset` are accepted by `reward_spec`
+(Array((), float)) and `discount_spec` (BoundedArray((), float, 0, 1)) -/
+theorem jobshop_reward_discount_valid (cfg : Cfg) (s : State) (a : List Int) (mid dur : List (List Int)) :
+    rewardSpec.valid (scalarArr (step cfg s a).2.reward) = true ∧
+    discountSpec.valid (scalarArr (step cfg s a).2.discount) = true ∧
+    rewardSpec.valid (scalarArr (reset cfg mid dur).2.reward) = true ∧
+    discountSpec.valid (scalarArr (reset cfg mid dur).2.discount) = true :=
+  ⟨(JobShop.step_reward_discount_valid cfg s a).1, (JobShop.step_reward_discount_valid cfg s a).2,
+   (JobShop.reset_reward_discount_valid cfg mid dur).1, (JobShop.reset_reward_discount_valid cfg mid dur).2⟩
+
+/-- `action_spec.generate_value()` = job 0 on every machine: the action spec is well-formed, the generated value is a member
+(membership in `action_spec` is exactly `InSpec`), and `step` answers it in every state with a protocol-conform timestep -/
+theorem jobshop_accepts_generate_value (cfg : Cfg) (hbig : cfg.J < 2147483648) (s : State) :
+    (actionSpec cfg).WF = true ∧ (actionSpec cfg).valid (actionSpec cfg).generate = true ∧
+    (actionSpec cfg).generate = actionArr cfg (List.replicate cfg.M 0) ∧ InSpec cfg (List.replicate cfg.M 0) ∧
+    StepOK none false (step cfg s (List.replicate cfg.M 0)).2 = true :=
+  ⟨JobShop.actionSpec_WF cfg hbig, Leaf.generate_valid _ (JobShop.actionSpec_WF cfg hbig), JobShop.actionSpec_generate cfg,
+   JobShop.generate_inSpec cfg, JobShop.step_protocol cfg s _⟩
+
+theorem jobshop_action_spec_iff (cfg : Cfg) (a : List Int) :
+    (actionSpec cfg).valid (actionArr cfg a) = true ↔ InSpec cfg a := JobShop.actionSpec_valid_iff cfg a
 end Props.C01
 
 namespace Props.C04
@@ -75,7 +159,30 @@ theorem jobshop_step_agrees (cfg : Cfg) (s : State) (a : List Int) (hI : Inv cfg
     (hC : s.amask = maskOf cfg s) (hA : InSpec cfg a) : invalid cfg s a = false ↔ legalAction cfg s a :=
   JobShop.invalid_iff cfg s a hI hC hA
 
+/-- (wave 3, audit) `jobshop_step_agrees` speaks of `invalid`, the test inside `step`; this one is about what `step`
+RETURNS: on a state of legal play, for every in-spec joint action, the emitted timestep is LAST exactly when the rules
+forbid the action, or all machines are idle afterwards, or the schedule is finished.  So an episode that is neither finished
+nor idle is ended exactly for illegal actions: legal ↔ the step did not treat the action as invalid.  (The reward cannot be
+used to tell: for `J·O·D = 1` the penalty equals the ordinary step reward −1.) -/
+theorem jobshop_step_last_iff_rules (cfg : Cfg) (s : State) (a : List Int) (hI : Inv cfg s)
+    (hC : s.amask = maskOf cfg s) (hA : InSpec cfg a) :
+    (step cfg s a).2.stepType = .last ↔
+      (¬ legalAction cfg s a ∨ allIdle cfg (next cfg s a) = true ∨ finished cfg (next cfg s a) = true) :=
+  JobShop.step_last_iff_rules cfg s a hI hC hA
+
+theorem jobshop_step_reaction (cfg : Cfg) (s : State) (a : List Int) (hI : Inv cfg s)
+    (hC : s.amask = maskOf cfg s) (hA : InSpec cfg a) (hidle : allIdle cfg (next cfg s a) = false)
+    (hfin : finished cfg (next cfg s a) = false) :
+    (step cfg s a).2.stepType = .last ↔ ¬ legalAction cfg s a := by
+  rw [JobShop.step_last_iff_rules cfg s a hI hC hA, hidle, hfin]; simp
+
+theorem jobshop_penalty_eq_step_reward_witness : penalty ⟨1, 1, 1, 1⟩ = -1 := by decide +kernel
+
 example : Inv exCfg exState ∧ exState.amask = maskOf exCfg exState := by decide +kernel
+-- both cases of `jobshop_step_reaction` occur on `exState`: [2, 2] (wait) is legal and MID, [1, 2] is illegal and LAST
+example : InSpec exCfg [2, 2] ∧ InSpec exCfg [1, 2] ∧ (step exCfg exState [2, 2]).2.stepType = .mid ∧
+    (step exCfg exState [1, 2]).2.stepType = .last ∧ allIdle exCfg (next exCfg exState [1, 2]) = false ∧
+    finished exCfg (next exCfg exState [1, 2]) = false := by decide +kernel
 example : legalAction exCfg exState [2, 2] ∧ ¬ legalAction exCfg exState [1, 2] ∧
     legal exCfg ⟨[[1, 0], [0, -1]], [[2, 1], [1, -1]], [[true, true], [true, false]], [2, 2], [0, 0],
       [[false, true, true], [true, false, true]], 0, [[-1, -1], [-1, -1]]⟩ 1 0 := by decide +kernel
@@ -214,6 +321,19 @@ theorem jobshop_return_eq_neg_makespan' (cfg : Cfg) (s : State) (as : List (List
     (hnf : finished cfg s = false) (he : EndsByCompletion cfg s as) :
     (play cfg s as).2 = objective cfg (play cfg s as).1 ∧ IsSolution cfg (play cfg s as).1 :=
   JobShop.return_eq_objective' cfg s as hI hC hD h0 hnf he
+
+/-- (wave 3) the same from `reset` of the transliterated `RandomGenerator`: for EVERY configuration with at least one job,
+EVERY valid draw and every legal episode that runs until the schedule is finished, the return is −makespan of the final
+schedule, which is a complete feasible solution (all hypotheses on the start state discharged from the generator) -/
+theorem jobshop_return_from_generated (cfg : Cfg) (hJ : 0 < cfg.J) (midDraw durDraw : List (List Int)) (numOps : List Int)
+    (hd : validGenDraw cfg midDraw durDraw numOps) (as : List (List Int))
+    (he : EndsByCompletion cfg (generate cfg midDraw durDraw numOps) as) :
+    (play cfg (generate cfg midDraw durDraw numOps) as).2 = objective cfg (play cfg (generate cfg midDraw durDraw numOps) as).1 ∧
+    IsSolution cfg (play cfg (generate cfg midDraw durDraw numOps) as).1 := by
+  have hg := JobShop.generate_cert cfg midDraw durDraw numOps hd
+  have hc := JobShop.cert_state cfg _ hg
+  exact JobShop.return_eq_objective' cfg _ as hc.2.1 hc.2.2 (JobShop.cert_instance cfg _ hg).2.1 hg.2.2.2.2.2.1
+    (JobShop.generated_unfinished cfg hJ _ hg) he
 
 /-- the hypotheses are satisfiable: the 1-job instance above, played to completion -/
 example : Inv ⟨1, 1, 1, 2⟩ (initState ⟨1, 1, 1, 2⟩ [[0]] [[2]]) ∧
@@ -397,6 +517,27 @@ theorem jobshop_horizon_bound (cfg : Cfg) (s : State) (hD : DurationsOK cfg s)
     (hns : ∀ j, j < cfg.J → ∀ k, k < cfg.O → ¬ isSched s j k) :
     timeLeft cfg s ≤ ((cfg.J * cfg.O * cfg.D : Nat) : Int) := JobShop.timeLeft_init_le cfg s hD hns
 
+/-- (wave 3) EPISODE level, all hypotheses discharged: from the reset state of ANY generated instance (`GenCert`, which holds
+for every valid draw of `RandomGenerator` and for `ToyGenerator`), ANY play of in-spec joint actions — legal or not — none of
+whose timesteps is LAST so far has at most `J·O·D` steps.  Hence every episode, whatever is played, ends (LAST) within its
+structural horizon of `num_jobs · max_num_ops · max_op_duration + 1` steps. -/
+theorem jobshop_episode_horizon (cfg : Cfg) (s : State) (hg : GenCert cfg s) (as : List (List Int))
+    (hin : ∀ a ∈ as, InSpec cfg a) (hnl : ∀ e ∈ Ep.rollout (step cfg) s as, e.2.stepType ≠ .last) :
+    as.length ≤ cfg.J * cfg.O * cfg.D := JobShop.episode_horizon cfg s hg as hin hnl
+
+theorem jobshop_episode_horizon_generated (cfg : Cfg) (midDraw durDraw : List (List Int)) (numOps : List Int)
+    (hd : validGenDraw cfg midDraw durDraw numOps) (as : List (List Int)) (hin : ∀ a ∈ as, InSpec cfg a)
+    (hnl : ∀ e ∈ Ep.rollout (step cfg) (generate cfg midDraw durDraw numOps) as, e.2.stepType ≠ .last) :
+    as.length ≤ cfg.J * cfg.O * cfg.D :=
+  JobShop.episode_horizon cfg _ (JobShop.generate_cert cfg midDraw durDraw numOps hd) as hin hnl
+
+-- seven non-LAST steps of the repository's own action sequence on the toy instance (J·O·D = 80)
+example : GenCert toyCfg toyState ∧ (∀ a ∈ toyActions.take 7, InSpec toyCfg a) ∧
+    (∀ e ∈ Ep.rollout (step toyCfg) toyState (toyActions.take 7), e.2.stepType ≠ .last) := by
+  refine ⟨by decide +kernel, by decide, ?_⟩
+  simp only [toyActions, List.take, Ep.rollout]
+  decide +kernel
+
 example : Survives exCfg exState [[2, 2]] ∧ DurationsOK exCfg exState ∧ timeLeft exCfg exState = 3 := by
   refine ⟨?_, ?_, ?_⟩
   · simp only [Survives]; decide +kernel
@@ -409,5 +550,14 @@ namespace Props.C12
 being the mask of the successor's own machine/op status) -/
 theorem jobshop_obs_faithful (cfg : Cfg) (s : State) (a : List Int) :
     (step cfg s a).2.obs = observe cfg (step cfg s a).1 := JobShop.obs_faithful cfg s a
+
+/-- (wave 3) the same for the observation `reset` returns, for every instance -/
+theorem jobshop_reset_obs_faithful (cfg : Cfg) (mid dur : List (List Int)) :
+    (reset cfg mid dur).2.obs = observe cfg (reset cfg mid dur).1 := JobShop.reset_obs_faithful cfg mid dur
+
+/-- (wave 3) and on every state of legal play the mask shown is the legality table of the rules (not only the recomputed L1
+mask): `observe … .amask = legalTable` -/
+theorem jobshop_obs_mask_is_legal (cfg : Cfg) (s : State) (hI : Inv cfg s) :
+    (observe cfg s).amask = legalTable cfg s := JobShop.maskOf_eq_legalTable cfg s hI
 end Props.C12
 
